@@ -6,7 +6,7 @@ from geom import fd_glyphs_json, snap_glyphset
 from ufo import build, rat
 
 ID = "C13"
-PROOF_FILES = ["Geom", "Reverse", "Render", "C13"]
+PROOF_FILES = ["Geom", "Reverse", "Render", "GoodCert", "C13"]
 THEOREM = "Ufo2ft.C13.C13_render / C13_resolve / C13_order_listed (+ Render.runFilter_sameRender)"
 N = {"quick": 240, "thorough": 4000}
 RULE = ("(a) SkipExportGlyphsFilter applied to random component graphs (depth<=4, mirrors/shears/rotations, shared bases) with random skip "
